@@ -86,6 +86,7 @@ Fixpoint isize (i : item) : nat :=
   | Mac _ _ _ a => S (fold_right (fun i n => isize i + n) 0 a)
   | Math _ _ b _ => S (fold_right (fun i n => isize i + n) 0 b)
   | Cmt _ _ _ => 1
+  | Par _ _ => 1
   end.
 Definition lsize (l : list item) := fold_right (fun i n => isize i + n) 0 l.
 Lemma isize_pos i : 1 <= isize i. Proof. destruct i; cbn; lia. Qed.
@@ -102,6 +103,9 @@ Lemma space_123 : is_space 123 = false. Proof. vm_compute. reflexivity. Qed.
 Lemma space_125 : is_space 125 = false. Proof. vm_compute. reflexivity. Qed.
 Lemma space_92 : is_space 92 = false. Proof. vm_compute. reflexivity. Qed.
 Lemma space_36 : is_space 36 = false. Proof. vm_compute. reflexivity. Qed.
+
+Lemma ilen_par ws mid : ilen (Par ws mid) = length ws + 1 + length mid + 1.
+Proof. unfold ilen. cbn [unparse_item]. rewrite app_length. cbn [length]. rewrite app_length. cbn [length]. lia. Qed.
 
 Lemma ilen_cmt ws text post : ilen (Cmt ws text post) = length ws + 1 + length text + length post.
 Proof. unfold ilen. cbn [unparse_item]. rewrite app_length. cbn [length]. rewrite app_length. lia. Qed.
@@ -324,7 +328,7 @@ Section Sim.
     - cbn [ok_args] in OKA. apply andb_true_iff in OKA. destruct OKA as [OKA OKR].
       apply andb_true_iff in OKA. destruct OKA as [KD OKI].
       destruct (a_kind spc) as [aps| | |] eqn:AK; try discriminate.
-      destruct a as [|ws b tr| | |]; try discriminate. destruct ws; [|discriminate].
+      destruct a as [|ws b tr| | | |]; try discriminate. destruct ws; [|discriminate].
       set (ps' := apply_adelta ps (a_delta spc)) in *.
       assert (SD' : Std cx ps') by (apply std_adelta; exact SD).
       rewrite ok_item_grp in OKI. apply andb_true_iff in OKI. destruct OKI as [OKI OKB].
@@ -369,7 +373,7 @@ Section Sim.
     R (k + 8 * ilen i) (TCollect ps o st pos) = r.
   Proof.
     intros IH i ps o st pos fol k r SZ SD OK NR OKI SK H. pose proof (std_view_of cx ps SD) as V.
-    destruct i as [ws cs|ws b tr|ws name post args|ws mk b tr|ws text post]; cycle 4.
+    destruct i as [ws cs|ws b tr|ws name post args|ws mk b tr|ws text post|ws mid]; cycle 4.
     - (* comment *)
       cbn [ok_item] in OKI. apply andb_true_iff in OKI. destruct OKI as [OKI FO].
       apply andb_true_iff in OKI. destruct OKI as [OKI NLs].
@@ -392,6 +396,26 @@ Section Sim.
       apply (rule_comment s cx k ps o st pos ws text _ post r OK T).
       replace (pos + (length ws + 1 + length text + length post))
         with (pos + length ws + 1 + length text + length post) in H by lia. exact H.
+    - (* paragraph break *)
+      cbn [ok_item] in OKI. apply andb_true_iff in OKI. destruct OKI as [OKI PS].
+      apply andb_true_iff in OKI. destruct OKI as [OKI FO].
+      apply andb_true_iff in OKI. destruct OKI as [OKI WM].
+      apply andb_true_iff in OKI. destruct OKI as [W NW].
+      apply negb_true_iff in NW. apply negb_true_iff in FO.
+      cbn [absorb_item item_ws node_of] in H. rewrite PS in H.
+      unfold par_spec_ok in PS.
+      destruct (get_specials_spec cx [10;10]%N) as [sp|] eqn:GS; [|discriminate].
+      destruct (sp_args sp) as [[|? ?]|] eqn:SA; try discriminate.
+      assert (SK' : skipn pos s = ws ++ 10%N :: mid ++ 10%N :: fol).
+      { cbn [unparse_item] in SK. rewrite <- !app_assoc in SK. cbn [app] in SK. rewrite <- !app_assoc in SK. exact SK. }
+      pose proof (impl_peek_par cx ps s pos ws mid fol sp V SK' W NW WM (otest_hd_not _ _ FO) GS) as T.
+      rewrite ilen_par in H |- *.
+      apply (lift (S (k + 2))); [|exact NR|lia].
+      eapply (rule_specials s cx (k + 2) ps o st pos ws [10;10]%N _ sp _ _ r OK GS T).
+      + replace (k + 2) with (S (S k)) by lia. apply rule_tcall_specials. exact SA.
+      + apply (lift _ (k + 2)) in H; [|exact NR|lia].
+        replace (pos + (length ws + 1 + length mid + 1)) with (pos + length ws + 1 + length mid + 1) in H by lia.
+        exact H.
     - (* text *)
       cbn [ok_item] in OKI. apply andb_true_iff in OKI. destruct OKI as [OKI IN].
       apply andb_true_iff in OKI. destruct OKI as [W NE]. destruct cs as [|c cs]; [discriminate|].
